@@ -17,9 +17,11 @@ package filter
 
 // Loop annotations for the no-panic sweep of the built-in filters (C02).
 //@ func filter.filterDate
+//@   never "stick.NewSafeValue(" nosafe
 //@   loop 1 invariant 0 <= i && i <= maxLen && maxLen == len(requestedLayout)
 //@   loop 1 decreases maxLen - i
 //@ func filter.filterReverse
+//@   never "stick.NewSafeValue(" nosafe
 //@   loop 1 invariant i < rv_len(arr) && (rv_kind(arr) == 23 || rv_kind(arr) == 17) && rv_valid(arr) && rv_caniface(arr)
 //@   loop 1 decreases i + 1
 //@   loop 2 invariant 0 <= i && j < len(runes) && i + j == len(runes) - 1
@@ -27,3 +29,62 @@ package filter
 
 // C18: no filter writes package-level state
 //@ globalframe only filter.init
+
+// C12: no built-in filter except raw marks its result safe: whatever a filter returns is escaped when it is printed
+//@ func filter.filterAbs
+//@   never "stick.NewSafeValue(" nosafe
+//@ func filter.filterBatch
+//@   never "stick.NewSafeValue(" nosafe
+//@ func filter.filterCapitalize
+//@   never "stick.NewSafeValue(" nosafe
+//@ func filter.filterConvertEncoding
+//@   never "stick.NewSafeValue(" nosafe
+//@ func filter.filterDateModify
+//@   never "stick.NewSafeValue(" nosafe
+//@ func filter.filterDefault
+//@   never "stick.NewSafeValue(" nosafe
+//@ func filter.filterFirst
+//@   never "stick.NewSafeValue(" nosafe
+//@ func filter.filterFormat
+//@   never "stick.NewSafeValue(" nosafe
+//@ func filter.filterJoin
+//@   never "stick.NewSafeValue(" nosafe
+//@ func filter.filterJSONEncode
+//@   never "stick.NewSafeValue(" nosafe
+//@ func filter.filterKeys
+//@   never "stick.NewSafeValue(" nosafe
+//@ func filter.filterLast
+//@   never "stick.NewSafeValue(" nosafe
+// C16: the length filter agrees with Len / Iterate on every value that is not a plain string (whatever methods the
+// value's type has)
+//@ func filter.filterLength
+//@   never "stick.NewSafeValue(" nosafe
+//@   asserts len: !istype(val, "string") ==> called("stick.Len(val)") && istype(result, "int") && unbox(result, "int") == l
+//@ func filter.filterLower
+//@   never "stick.NewSafeValue(" nosafe
+//@ func filter.filterMerge
+//@   never "stick.NewSafeValue(" nosafe
+//@ func filter.filterNL2BR
+//@   never "stick.NewSafeValue(" nosafe
+//@ func filter.filterNumberFormat
+//@   never "stick.NewSafeValue(" nosafe
+//@ func filter.filterReplace
+//@   never "stick.NewSafeValue(" nosafe
+//@ func filter.filterRound
+//@   never "stick.NewSafeValue(" nosafe
+//@ func filter.filterSlice
+//@   never "stick.NewSafeValue(" nosafe
+//@ func filter.filterSort
+//@   never "stick.NewSafeValue(" nosafe
+//@ func filter.filterSplit
+//@   never "stick.NewSafeValue(" nosafe
+//@ func filter.filterStripTags
+//@   never "stick.NewSafeValue(" nosafe
+//@ func filter.filterTitle
+//@   never "stick.NewSafeValue(" nosafe
+//@ func filter.filterTrim
+//@   never "stick.NewSafeValue(" nosafe
+//@ func filter.filterUpper
+//@   never "stick.NewSafeValue(" nosafe
+//@ func filter.filterURLEncode
+//@   never "stick.NewSafeValue(" nosafe
